@@ -89,6 +89,17 @@ func listElems(w *World, tm *Terms, t *Term, depth int) (out []listElem, ok bool
 			out = append(out, listElem{t: x.t})
 		}
 		return out, true
+	case t.Op == "global":
+		// a package-level variable: the value its package initialiser stores into it
+		if g, ok := t.V.(*ssa.UnOp); ok {
+			if gv, ok := g.X.(*ssa.Global); ok {
+				return globalListElems(w, tm, gv, depth)
+			}
+		}
+		if gv, ok := t.V.(*ssa.Global); ok {
+			return globalListElems(w, tm, gv, depth)
+		}
+		return nil, false
 	case t.Op == "builtin" && t.Name == "append" && len(t.Args) == 2:
 		base, ok1 := listElems(w, tm, t.Args[0], depth+1)
 		if !ok1 {
@@ -100,6 +111,19 @@ func listElems(w *World, tm *Terms, t *Term, depth int) (out []listElem, ok bool
 	case t.Op == "phi" && isMapLoop(t) != nil:
 		// a loop that appends one element per element of a literal list: for each x of L: append(acc, f(x))
 		app := isMapLoop(t)
+		// flattening: for each group of a literal list of lists: append(acc, group...)
+		if g := stripRef(app.Args[1]); g.Op == "elem" && len(g.Args) == 2 && g.Args[1].Op != "const" {
+			if groups, ok := listElems(w, tm, g.Args[0], depth+1); ok {
+				for _, gr := range groups {
+					es, ok := listElems(w, tm, gr.t, depth+1)
+					if !ok {
+						return nil, false
+					}
+					out = append(out, es...)
+				}
+				return out, true
+			}
+		}
 		one, ok1 := listElems(w, tm, app.Args[1], depth+1)
 		if !ok1 || len(one) != 1 {
 			return nil, false
@@ -148,6 +172,35 @@ func listElems(w *World, tm *Terms, t *Term, depth int) (out []listElem, ok bool
 		return out, true
 	}
 	return nil, false
+}
+
+// globalListElems: the elements of the list the package initialiser stores into the global variable.
+func globalListElems(w *World, tm *Terms, gv *ssa.Global, depth int) ([]listElem, bool) {
+	if gv.Pkg == nil {
+		return nil, false
+	}
+	initFn := gv.Pkg.Func("init")
+	if initFn == nil {
+		return nil, false
+	}
+	var out []listElem
+	n := 0
+	fr := tm.Root(initFn)
+	for _, b := range initFn.Blocks {
+		for _, in := range b.Instrs {
+			st, ok := in.(*ssa.Store)
+			if !ok || st.Addr != ssa.Value(gv) {
+				continue
+			}
+			n++
+			es, ok := listElems(w, tm, tm.OperandAt(fr, in, st.Val), depth+1)
+			if !ok {
+				return nil, false
+			}
+			out = es
+		}
+	}
+	return out, n == 1
 }
 
 // isMapLoop: phi(append(rec, S), empty…) — the accumulator of a loop that appends S once per iteration, starting empty.
